@@ -194,7 +194,14 @@ def run(tier, seed, only=None):
             if x.label() == y.label():
                 obs.append(oblig.Ob("CDw path %s" % x.label(), lhs=y.result["outputs"]["CDw"].ravel()[0], rhs=x.result["outputs"]["CDw"].ravel()[0],
                                     assume=pos + x.conds + y.conds, meta={"family": "wave drag coefficient is invariant under length scaling"}))
-    run_obligations(rep, "WaveDrag: length scaling", obs, timeout, family=lambda ob: "WaveDrag: " + ob.meta["family"], fixed=fixed)
+    def wave_rp(ob, env, sc=sc):
+        v = {"Mach_number": [0.86], "CL": [0.55], "widths": [0.8, 1.4], "chords": [1.6, 1.3, 1.0], "lengths_spanwise": [0.85, 1.5], "t_over_c": [0.12, 0.10]}
+        kk = 2.5
+        a_ = float(np.ravel(sc.real(v)["CDw"])[0])
+        b_ = float(np.ravel(sc.real(dict(v, widths=[kk * x for x in v["widths"]], chords=[kk * x for x in v["chords"]], lengths_spanwise=[kk * x for x in v["lengths_spanwise"]]))["CDw"])[0])
+        return model.differs(a_, b_, 1e-9), "CDw = %.12g, after scaling every length by %.3g: %.12g" % (a_, kk, b_)
+
+    run_obligations(rep, "WaveDrag: length scaling", obs, timeout, family=lambda ob: "WaveDrag: " + ob.meta["family"], fixed=fixed, replay=wave_rp)
     kernel_scaling(rep, timeout, k, pos)
     rep.bounds = {"cases": [c[0] for c in cfgs]}
     rep.assumptions = ["real arithmetic", "k, rho- and v-factors positive", "kernel scaling: both configurations outside the absolute 1e-10 kernel tolerance band (the tolerance is scale dependent; inside the band the law is false and this is an assumption, not checked)",
@@ -223,8 +230,18 @@ def kernel_scaling(rep, timeout, k, pos):
     for c in range(3):
         obs.append(oblig.Ob("semi-infinite vortex K(u, k r) = K(u, r)/k [%d]" % c, lhs=s1[0].result[0, c], rhs=s0[0].result[0, c] / k, assume=pos,
                             meta={"family": "semi-infinite vortex kernel scales with 1/length"}))
+    def kern_rp(ob, env):
+        rng = np.random.default_rng(3)
+        r1v, r2v, uv, kk = rng.standard_normal((1, 3)) + 2.0, rng.standard_normal((1, 3)) - 1.5, np.array([[0.98, 0.0, 0.17]]), 2.0
+        a_ = np.asarray(em._compute_finite_vortex(r1v * kk, r2v * kk), dtype=float) * kk
+        b_ = np.asarray(em._compute_finite_vortex(r1v, r2v), dtype=float)
+        c_ = np.asarray(em._compute_semi_infinite_vortex(uv, r2v * kk), dtype=float) * kk
+        d_ = np.asarray(em._compute_semi_infinite_vortex(uv, r2v), dtype=float)
+        e = max(np.abs(a_ - b_).max(), np.abs(c_ - d_).max())
+        return e > 1e-12, "real kernels: k K(k r) - K(r) = %.3g" % e
+
     run_obligations(rep, "vortex kernels: length scaling", obs, timeout, relate=[k], relate_assume=pos, family=lambda ob: "kernel: " + ob.meta["family"],
-                    fixed={"k": 2.0})
+                    fixed={"k": 2.0}, replay=kern_rp)
 
 
 def replay_file(path):
